@@ -437,7 +437,8 @@ SUBS = [
         "non-trivial", quick=1200, thorough=20000),
     Sub("copies", copy_case(), run_copy,
         "like(), like(data), pickle, compute/persist/to_dask_array/rechunk (also of Dask-backed and zero-length signals), base-class like(); "
-        "every attribute and the data reproduced; all non-trivial", quick=1500, thorough=20000, pieces_quick=3),
+        "every attribute and the data reproduced; in 6/7 of the cases one attribute of the original is then re-assigned and the same copy taken "
+        "again (must show the current attributes); all non-trivial", quick=1500, thorough=20000, pieces_quick=3),
     Sub("operation_outputs", ops_case(), run_ops,
         "objects returned by library operations (stepped slices, index tuples touching fixed/trailing axes with ints/slices/lists/masks/empty "
         "ranges, ufuncs, like with changed arguments, conversions, cropped shifts): each call either refuses or returns an object satisfying "
